@@ -90,7 +90,18 @@ func (out *RunOut) run(t *Target, vals []zed.Value, f Fault) {
 	}
 }
 
+// runOnce runs under a generous watchdog; a run that does not finish is
+// repeated once on its own with a much longer limit before it counts as hung
+// (a loaded machine must not turn into a violation).
 func runOnce(t *Target, vals []zed.Value, f Fault) *RunOut {
+	out := runTimed(t, vals, f, 30*time.Second)
+	if out.Hung {
+		out = runTimed(t, vals, f, 180*time.Second)
+	}
+	return out
+}
+
+func runTimed(t *Target, vals []zed.Value, f Fault, limit time.Duration) *RunOut {
 	out := &RunOut{}
 	done := make(chan struct{})
 	go func() {
@@ -100,7 +111,7 @@ func runOnce(t *Target, vals []zed.Value, f Fault) *RunOut {
 	select {
 	case <-done:
 		return out
-	case <-time.After(10 * time.Second):
+	case <-time.After(limit):
 		return &RunOut{Hung: true, ReportedAt: -1, Env: &Env{F: f}}
 	}
 }
@@ -313,6 +324,12 @@ func (c *c18) oneCase(t *Target, caseID string, vals []zed.Value, safe bool) {
 					t.Name, f.K, n, kind, lenAt(base.Env.CallLens, f.K-1), phase, f.Mode, m, state),
 				Replay: c.replay(t, caseID, vals, f), Expected: "an error from that Write, a later Write or Close", Observed: "all calls returned nil; " + state})
 		}
+		if !out.Env.SawFault && (f.Mode != CloseFail || (out.ReportedAt == -1 && !sameFiles(out.delivered(), base.delivered()))) && c.unstable(t, vals, base) {
+			// the writer's output is not a function of its input (seen with vng
+			// dictionaries): the fault-free trace is no reference for this case
+			res.Count("skipped_nondeterministic_run:" + t.Name)
+			return
+		}
 		if !out.Env.SawFault && f.Mode != CloseFail {
 			// cannot happen while the run is deterministic up to the fault
 			res.Fail(Failure{Kind: "oracle", Sig: "C18 fault-not-reached " + sigTail, Detail: fmt.Sprintf("%s: fault %s never reached although the fault-free run makes %d calls", t.Name, f, n),
@@ -343,6 +360,18 @@ func (c *c18) oneCase(t *Target, caseID string, vals []zed.Value, safe bool) {
 		res.Sample(map[string]any{"target": t.Name, "values": m, "sink_calls_fault_free": n, "positions_enumerated": len(ks), "first_values": valuesZSON(vals, 2)})
 	}
 	c.emitCase(t, vals, base, obs)
+}
+
+// unstable re-runs the fault-free case a few times and says whether the calls
+// or the delivered bytes vary.
+func (c *c18) unstable(t *Target, vals []zed.Value, base *RunOut) bool {
+	for i := 0; i < 4; i++ {
+		again := runOnce(t, vals, Fault{})
+		if again.Hung || again.ReportedAt != -1 || again.Env.Calls != base.Env.Calls || !sameFiles(base.delivered(), again.delivered()) {
+			return true
+		}
+	}
+	return false
 }
 
 func repClass(rep, m int) string {
@@ -577,8 +606,8 @@ func (c *c18) emitCase(t *Target, vals []zed.Value, base *RunOut, obs []string) 
 		return
 	}
 	m := len(vals)
-	// keep the evaluation inside Coq bounded: about 3M model steps per case
-	if budget := 3000000/(base.Env.Calls+m+1) + 60; len(obs) > budget {
+	// keep the evaluation inside Coq bounded: about 1.5M model steps per case
+	if budget := 1500000/(base.Env.Calls+m+1) + 60; len(obs) > budget {
 		step := len(obs)/budget + 1
 		var thin []string
 		for i := 0; i < len(obs); i += step {
@@ -601,14 +630,6 @@ func (c *c18) emitCase(t *Target, vals []zed.Value, base *RunOut, obs []string) 
 		spill = natList(sp)
 	} else {
 		ops, closeN = perOp(base.Env.CallOps, m)
-	}
-	if t.Kind == "KTable" {
-		for _, v := range vals {
-			if len(zed.TypeRecordOf(v.Type()).Fields) < 2 {
-				c.res.Count("table_single_column_not_modelled")
-				return
-			}
-		}
 	}
 	if t.Kind == "KZng" {
 		ts, vs, err := zngSizes(vals)
